@@ -101,51 +101,60 @@ example : incrementalCompare (stream (events "@a(1,2)".toList)) (stream (events 
 example : incrementalCompare (stream (events "@a(1)".toList)) (stream (events "@a({1})".toList)) = some false := by
   decide +kernel
 
-/-! ## "equal ⇒ same hash" is false of `recon_hash` as it is (findings C15-N1, C15-N2)
+/-! ## the hash after the repairs C15-N1 (/repo 093eb3d) and C15-N2 (/repo 881b1c8)
 
 The two flags are read from the source on every run (`Generated/ReconEqConsts.lean`): `floatHashZeroNormalised` is
-`false` while `NumericValue::hash` writes `to_bits` of a float, `implicitByStructure` is `false` while
-`is_implicit_record` scans the text.  The witnesses are stated under the flag they depend on, so that a repaired tree
-fails the two `example`s below at once (and cheaply) instead of a long kernel evaluation. -/
+`true` since `NumericValue::hash` writes `-0.0` as `0.0`, `implicitByStructure` is `true` since `is_implicit_record`
+reads the attribute body ahead with the parser instead of scanning the text.  The regression theorems are stated under
+the flag they depend on, so that a tree with a repair reverted fails the two `example`s at once (and cheaply) instead
+of a long kernel evaluation; the monitor classes `negzero` / `implicit-scan` are then violations (the known-findings
+entries are `fixed`, they suppress nothing). -/
+
+example : floatHashZeroNormalised = true := by decide
+example : implicitByStructure = true := by decide
 
 /-- The statement of the property for the hash. -/
 def C15_eq_same_hash : Prop := ∀ a b : List Char, compareRecon a b = true → hashCalls a = hashCalls b
 
-example : floatHashZeroNormalised = false := by decide
-example : implicitByStructure = false := by decide
-
-/-- C15-N1: `NumericValue::hash` writes `f64::to_bits`, so `-0.0` and `0.0` (equal as events and as values) differ. -/
-theorem C15_hash_negzero_witness : floatHashZeroNormalised = false →
+/-- C15-N1 repaired: `-0.0` and `0.0` (equal as events and as values) hash alike. -/
+theorem C15_hash_negzero_repaired : floatHashZeroNormalised = true →
     (compareRecon "-0.0".toList "0.0".toList = true ∧
      (parseValue "-0.0".toList).isSome = true ∧ (parseValue "0.0".toList).isSome = true ∧
-     hashCalls "-0.0".toList ≠ hashCalls "0.0".toList) := by decide +kernel
+     hashCalls "-0.0".toList = hashCalls "0.0".toList) := by decide +kernel
 
-/-- C15-N2 (a): `is_implicit_record` scans the text after `@name(` for `,` `;` `:`; items separated by a new line are
-an implicit record it does not see. -/
-theorem C15_hash_newline_witness : implicitByStructure = false →
+/-- C15-N2 (a) repaired: items of an attribute body separated by a new line are the implicit record they are. -/
+theorem C15_hash_newline_repaired : implicitByStructure = true →
     (compareRecon "@a(1\n2)".toList "@a(1,2)".toList = true ∧
-     (parseValue "@a(1\n2)".toList).isSome = true ∧
      parseValue "@a(1\n2)".toList = parseValue "@a(1,2)".toList ∧
-     hashCalls "@a(1\n2)".toList ≠ hashCalls "@a(1,2)".toList) := by decide +kernel
+     hashCalls "@a(1\n2)".toList = hashCalls "@a(1,2)".toList ∧
+     hashCalls "@a(1\n2)".toList = hashCalls "@a({1,2})".toList) := by decide +kernel
 
-/-- C15-N2 (b): the scan does not know string literals: a `,` inside a string makes a single item an "implicit record". -/
-theorem C15_hash_string_delimiter_witness : implicitByStructure = false →
+/-- C15-N2 (b) repaired: delimiters inside string literals do not count. -/
+theorem C15_hash_string_delimiter_repaired : implicitByStructure = true →
     (compareRecon "@a(\"b,\")".toList "@a(\"b\\u002c\")".toList = true ∧
-     (parseValue "@a(\"b,\")".toList).isSome = true ∧
-     parseValue "@a(\"b,\")".toList = parseValue "@a(\"b\\u002c\")".toList ∧
-     hashCalls "@a(\"b,\")".toList ≠ hashCalls "@a(\"b\\u002c\")".toList) := by decide +kernel
+     hashCalls "@a(\"b,\")".toList = hashCalls "@a(\"b\\u002c\")".toList ∧
+     hashCalls "@a(\"(\", 2)".toList = hashCalls "@a(\"\\u0028\", 2)".toList ∧
+     hashCalls "@a(\"(\", 2)".toList = hashCalls "@a({\"(\", 2})".toList) := by decide +kernel
 
-/-- So the hash half of the property is false of the code as it is (either defect suffices). -/
-theorem C15_eq_same_hash_fails (h : floatHashZeroNormalised = false ∨ implicitByStructure = false) :
-    ¬ C15_eq_same_hash := by
+/-- With C15-N1 repaired the hasher calls of every event are its normal-form calls … -/
+theorem C15_event_hash_is_normal (e : Event) : evCalls e = evCallsN e :=
+  evCalls_eq_evCallsN (by decide) e
+
+/-- … so on the canonical event stream of ANY value the hasher calls are `hnorm`, and (with `C15_hash_respects`)
+canonical streams of equal values hash alike. -/
+theorem C15_hash_canonical (v w : Value) (h : veq v w = true) :
+    (evsV v).flatMap evCalls = hnorm v ∧ (evsV v).flatMap evCalls = (evsV w).flatMap evCalls :=
+  hash_canonical (by decide) v w h
+
+/-- The hash half of the property is still false of the code, now only because of the comparison (C15-N3): `{{1,2}}`
+and `{1,{2}}` compare equal, are different values, and (rightly) hash differently. -/
+theorem C15_eq_same_hash_fails : ¬ C15_eq_same_hash := by
   intro hp
-  rcases h with h | h
-  · have w := C15_hash_negzero_witness h
-    exact w.2.2.2 (hp _ _ w.1)
-  · have w := C15_hash_newline_witness h
-    exact w.2.2.2 (hp _ _ w.1)
+  have := hp "{{1,2}}".toList "{1,{2}}".toList (by decide +kernel)
+  revert this
+  decide +kernel
 
-/-- What does hold at the level of values (`C15_hash_respects`) is reached by the real hash on well-scanned
+/-- What holds at the level of values (`C15_hash_respects`) is reached by the real hash on these
 spellings: the calls are the normal form of the parsed value, so implicit and explicit bodies hash alike. -/
 theorem C15_eq_same_hash_partial :
     (parseValue "@a(1,2)".toList).map hnorm = some (hashCalls "@a(1,2)".toList) ∧
